@@ -15,6 +15,8 @@ import (
 
 func init() {
 	register(&PropertyCheck{ID: "C09", Level: "other", Run: checkC09, Canaries: []Canary{
+		{Name: "rf8-bool-decoder-drops-the-inner-error", Rule: "R9.1", Where: "(*wbool).UnmarshalBinary", Edits: []Edit{{"wiretypes.go", "\tif len(data) >= i+1 {\n\t\tif v {\n\t\t\tdata[i] = 0x01\n\t\t} else {\n\t\t\tdata[i] = 0x00\n\t\t}\n\t}\n\treturn 1\n}\nfunc (v *wbool) UnmarshalBinary(data []byte) error {\n\tif len(data) < 1 {\n\t\treturn ErrMissingData\n\t}\n\tswitch data[0] {\n\tcase 0:\n\t\t*v = wbool(false)\n\tcase 1:\n\t\t*v = wbool(true)\n\tdefault:\n\t\treturn fmt.Errorf(\"malformed bool\")\n\t}\n\treturn nil\n}\nfunc (v wbool) width() int { return 1 }\n\n// https://docs.oasis-open.org/mqtt/mqtt/v5.0/os/mqtt-v5.0-os.html#_Toc3901007\ntype bits byte\n\nfunc (v bits) Has(b byte) bool { return byte(v)&b == b }\n\nfunc (v bits) fillProp(data []byte, i int, id Ident) int {\n\tif v == 0 {\n\t\treturn 0\n\t}\n\tn := i\n\ti += id.fill(data, i)\n\ti += v.fill(data, i)\n\treturn i - n\n}\n\nfunc (v bits) fill(data []byte, i int) int {\n\tif len(data) >= i+1 {\n\t\tdata[i] = byte(v)\n\t}\n\treturn 1\n}\n\n// fillOpt fills the bits if > 0\nfunc (v bits) fillOpt(data []byte, i int) int {\n\tif v == 0 {\n\t\treturn 0\n\t}\n\treturn v.fill(data, i)\n}\n\nfunc (v *bits) ReadFrom(r io.Reader) (int64, error) {\n\tdata := make([]byte, 1)\n\tif n, err := io.ReadFull(r, data); err != nil {\n\t\treturn int64(n), err\n\t}\n\treturn 1, v.UnmarshalBinary(data)\n}\nfunc (v *bits) UnmarshalBinary(data []byte) error {\n\tif len(data) < 1 {\n\t\treturn ErrMissingData\n\t}\n\t*v = bits(data[0])\n\treturn nil\n}\nfunc (v bits) width() int { return 1 }\nfunc (v *bits) toggle(flag byte, on bool) {\n\tif on {\n\t\t*v = *v | bits(flag)\n\t\treturn\n\t}\n\t*v = *v & bits(^flag)\n}\n\n// https://docs.oasis-open.org/mqtt/mqtt/v5.0/os/mqtt-v5.0-os.html#_Toc3901008\ntype wuint16 uint16\n\nfunc (v wuint16) fillProp(data []byte, i int, id Ident) int {\n\tif v == 0 {\n\t\treturn 0\n\t}\n\tn := i\n\ti += id.fill(data, i)\n\ti += v.fill(data, i)\n\treturn i - n\n}\n\nfunc (v wuint16) fill(data []byte, i int) int {\n\tif len(data) >= i+2 {\n\t\tbinary.BigEndian.PutUint16(data[i:], uint16(v))\n\t}\n\treturn 2\n}\n\nfunc (v *wuint16) UnmarshalBinary(data []byte) error {\n\tif len(data) < 2 {\n\t\treturn ErrMissingData\n\t}\n\t*v = wuint16(binary.BigEndian.Uint16(data))\n\treturn nil\n}\n\nfunc (v wuint16) width() int { return 2 }\n\n// https://docs.oasis-open.org/mqtt/mqtt/v5.0/os/mqtt-v5.0-os.html#_Toc3901009\ntype wuint32 uint32\n\nfunc (v wuint32) fillProp(data []byte, i int, id Ident) int {\n\tif v == 0 {\n\t\treturn 0\n\t}\n\tn := i\n\ti += id.fill(data, i)\n\ti += v.fill(data, i)\n\treturn i - n\n}\n\nfunc (v wuint32) fill(data []byte, i int) int {\n\tif len(data) >= i+v.width() {\n\t\tbinary.BigEndian.PutUint32(data[i:], uint32(v))\n\t}\n\treturn v.width()\n}\n\nfunc (v *wuint32) UnmarshalBinary(data []byte) error {\n\tif len(data) < 4 {\n\t\treturn ErrMissingData\n\t}\n\t*v = wuint32(binary.BigEndian.Uint32(data))\n\treturn nil\n}\n\nfunc (v wuint32) width() int { return 4 }\n\n// only here to fulfill interface\nfunc (v Ident) fillProp(data []byte, i int, id Ident) int { return 0 }\n\nfunc (v Ident) fill(data []byte, i int) int {\n\tif len(data) >= i+1 {\n\t\tdata[i] = byte(v)\n\t}\n\treturn 1\n}\n\nfunc (v *Ident) UnmarshalBinary(data []byte) error {\n\tif len(data) < 1 {\n\t\treturn ErrMissingData\n\t}\n\t*v = Ident(data[0])\n\treturn nil", "\treturn v.wire().fill(data, i)\n}\n\n// wire returns the byte sent for v, 0x01 for true and 0x00 for false.\nfunc (v wbool) wire() bits {\n\tif v {\n\t\treturn 0x01\n\t}\n\treturn 0x00\n}\nfunc (v *wbool) UnmarshalBinary(data []byte) error {\n\tvar b bits\n\tb.UnmarshalBinary(data)\n\tswitch b {\n\tcase 0x00:\n\t\t*v = false\n\tcase 0x01:\n\t\t*v = true\n\tdefault:\n\t\treturn fmt.Errorf(\"malformed bool\")\n\t}\n\treturn nil\n}\nfunc (v wbool) width() int { return 1 }\n\n// https://docs.oasis-open.org/mqtt/mqtt/v5.0/os/mqtt-v5.0-os.html#_Toc3901007\ntype bits byte\n\nfunc (v bits) Has(b byte) bool { return byte(v)&b == b }\n\nfunc (v bits) fillProp(data []byte, i int, id Ident) int {\n\tif v == 0 {\n\t\treturn 0\n\t}\n\tn := i\n\ti += id.fill(data, i)\n\ti += v.fill(data, i)\n\treturn i - n\n}\n\nfunc (v bits) fill(data []byte, i int) int {\n\tif len(data) >= i+1 {\n\t\tdata[i] = byte(v)\n\t}\n\treturn 1\n}\n\n// fillOpt fills the bits if > 0\nfunc (v bits) fillOpt(data []byte, i int) int {\n\tif v == 0 {\n\t\treturn 0\n\t}\n\treturn v.fill(data, i)\n}\n\nfunc (v *bits) ReadFrom(r io.Reader) (int64, error) {\n\tdata := make([]byte, 1)\n\tif n, err := io.ReadFull(r, data); err != nil {\n\t\treturn int64(n), err\n\t}\n\treturn 1, v.UnmarshalBinary(data)\n}\nfunc (v *bits) UnmarshalBinary(data []byte) error {\n\tif len(data) < 1 {\n\t\treturn ErrMissingData\n\t}\n\t*v = bits(data[0])\n\treturn nil\n}\nfunc (v bits) width() int { return 1 }\nfunc (v *bits) toggle(flag byte, on bool) {\n\tmask := bits(flag)\n\tx := *v &^ mask // flag cleared\n\tif on {\n\t\tx |= mask\n\t}\n\t*v = x\n}\n\n// https://docs.oasis-open.org/mqtt/mqtt/v5.0/os/mqtt-v5.0-os.html#_Toc3901008\ntype wuint16 uint16\n\nfunc (v wuint16) fillProp(data []byte, i int, id Ident) int {\n\tif v == 0 {\n\t\treturn 0\n\t}\n\tn := i\n\ti += id.fill(data, i)\n\ti += v.fill(data, i)\n\treturn i - n\n}\n\nfunc (v wuint16) fill(data []byte, i int) int {\n\tif len(data) >= i+2 {\n\t\tbinary.BigEndian.PutUint16(data[i:], uint16(v))\n\t}\n\treturn 2\n}\n\nfunc (v *wuint16) UnmarshalBinary(data []byte) error {\n\tif len(data) < 2 {\n\t\treturn ErrMissingData\n\t}\n\t*v = wuint16(binary.BigEndian.Uint16(data))\n\treturn nil\n}\n\nfunc (v wuint16) width() int { return 2 }\n\n// https://docs.oasis-open.org/mqtt/mqtt/v5.0/os/mqtt-v5.0-os.html#_Toc3901009\ntype wuint32 uint32\n\nfunc (v wuint32) fillProp(data []byte, i int, id Ident) int {\n\tif v == 0 {\n\t\treturn 0\n\t}\n\tn := i\n\ti += id.fill(data, i)\n\ti += v.fill(data, i)\n\treturn i - n\n}\n\nfunc (v wuint32) fill(data []byte, i int) int {\n\tif len(data) >= i+v.width() {\n\t\tbinary.BigEndian.PutUint32(data[i:], uint32(v))\n\t}\n\treturn v.width()\n}\n\nfunc (v *wuint32) UnmarshalBinary(data []byte) error {\n\tif len(data) < 4 {\n\t\treturn ErrMissingData\n\t}\n\t*v = wuint32(binary.BigEndian.Uint32(data))\n\treturn nil\n}\n\nfunc (v wuint32) width() int { return 4 }\n\n// only here to fulfill interface\nfunc (v Ident) fillProp(data []byte, i int, id Ident) int { return 0 }\n\n// An Ident is a single byte on the wire, same as bits.\nfunc (v Ident) fill(data []byte, i int) int {\n\treturn bits(v).fill(data, i)\n}\n\nfunc (v *Ident) UnmarshalBinary(data []byte) error {\n\treturn (*bits)(v).UnmarshalBinary(data)"}}},
+		{Name: "rf8-single-byte-types-delegate-to-bits", Silent: true, Edits: []Edit{{"wiretypes.go", "\tif len(data) >= i+1 {\n\t\tif v {\n\t\t\tdata[i] = 0x01\n\t\t} else {\n\t\t\tdata[i] = 0x00\n\t\t}\n\t}\n\treturn 1\n}\nfunc (v *wbool) UnmarshalBinary(data []byte) error {\n\tif len(data) < 1 {\n\t\treturn ErrMissingData\n\t}\n\tswitch data[0] {\n\tcase 0:\n\t\t*v = wbool(false)\n\tcase 1:\n\t\t*v = wbool(true)\n\tdefault:\n\t\treturn fmt.Errorf(\"malformed bool\")\n\t}\n\treturn nil\n}\nfunc (v wbool) width() int { return 1 }\n\n// https://docs.oasis-open.org/mqtt/mqtt/v5.0/os/mqtt-v5.0-os.html#_Toc3901007\ntype bits byte\n\nfunc (v bits) Has(b byte) bool { return byte(v)&b == b }\n\nfunc (v bits) fillProp(data []byte, i int, id Ident) int {\n\tif v == 0 {\n\t\treturn 0\n\t}\n\tn := i\n\ti += id.fill(data, i)\n\ti += v.fill(data, i)\n\treturn i - n\n}\n\nfunc (v bits) fill(data []byte, i int) int {\n\tif len(data) >= i+1 {\n\t\tdata[i] = byte(v)\n\t}\n\treturn 1\n}\n\n// fillOpt fills the bits if > 0\nfunc (v bits) fillOpt(data []byte, i int) int {\n\tif v == 0 {\n\t\treturn 0\n\t}\n\treturn v.fill(data, i)\n}\n\nfunc (v *bits) ReadFrom(r io.Reader) (int64, error) {\n\tdata := make([]byte, 1)\n\tif n, err := io.ReadFull(r, data); err != nil {\n\t\treturn int64(n), err\n\t}\n\treturn 1, v.UnmarshalBinary(data)\n}\nfunc (v *bits) UnmarshalBinary(data []byte) error {\n\tif len(data) < 1 {\n\t\treturn ErrMissingData\n\t}\n\t*v = bits(data[0])\n\treturn nil\n}\nfunc (v bits) width() int { return 1 }\nfunc (v *bits) toggle(flag byte, on bool) {\n\tif on {\n\t\t*v = *v | bits(flag)\n\t\treturn\n\t}\n\t*v = *v & bits(^flag)\n}\n\n// https://docs.oasis-open.org/mqtt/mqtt/v5.0/os/mqtt-v5.0-os.html#_Toc3901008\ntype wuint16 uint16\n\nfunc (v wuint16) fillProp(data []byte, i int, id Ident) int {\n\tif v == 0 {\n\t\treturn 0\n\t}\n\tn := i\n\ti += id.fill(data, i)\n\ti += v.fill(data, i)\n\treturn i - n\n}\n\nfunc (v wuint16) fill(data []byte, i int) int {\n\tif len(data) >= i+2 {\n\t\tbinary.BigEndian.PutUint16(data[i:], uint16(v))\n\t}\n\treturn 2\n}\n\nfunc (v *wuint16) UnmarshalBinary(data []byte) error {\n\tif len(data) < 2 {\n\t\treturn ErrMissingData\n\t}\n\t*v = wuint16(binary.BigEndian.Uint16(data))\n\treturn nil\n}\n\nfunc (v wuint16) width() int { return 2 }\n\n// https://docs.oasis-open.org/mqtt/mqtt/v5.0/os/mqtt-v5.0-os.html#_Toc3901009\ntype wuint32 uint32\n\nfunc (v wuint32) fillProp(data []byte, i int, id Ident) int {\n\tif v == 0 {\n\t\treturn 0\n\t}\n\tn := i\n\ti += id.fill(data, i)\n\ti += v.fill(data, i)\n\treturn i - n\n}\n\nfunc (v wuint32) fill(data []byte, i int) int {\n\tif len(data) >= i+v.width() {\n\t\tbinary.BigEndian.PutUint32(data[i:], uint32(v))\n\t}\n\treturn v.width()\n}\n\nfunc (v *wuint32) UnmarshalBinary(data []byte) error {\n\tif len(data) < 4 {\n\t\treturn ErrMissingData\n\t}\n\t*v = wuint32(binary.BigEndian.Uint32(data))\n\treturn nil\n}\n\nfunc (v wuint32) width() int { return 4 }\n\n// only here to fulfill interface\nfunc (v Ident) fillProp(data []byte, i int, id Ident) int { return 0 }\n\nfunc (v Ident) fill(data []byte, i int) int {\n\tif len(data) >= i+1 {\n\t\tdata[i] = byte(v)\n\t}\n\treturn 1\n}\n\nfunc (v *Ident) UnmarshalBinary(data []byte) error {\n\tif len(data) < 1 {\n\t\treturn ErrMissingData\n\t}\n\t*v = Ident(data[0])\n\treturn nil", "\treturn v.wire().fill(data, i)\n}\n\n// wire returns the byte sent for v, 0x01 for true and 0x00 for false.\nfunc (v wbool) wire() bits {\n\tif v {\n\t\treturn 0x01\n\t}\n\treturn 0x00\n}\nfunc (v *wbool) UnmarshalBinary(data []byte) error {\n\tvar b bits\n\tif err := b.UnmarshalBinary(data); err != nil {\n\t\treturn err\n\t}\n\tswitch b {\n\tcase 0x00:\n\t\t*v = false\n\tcase 0x01:\n\t\t*v = true\n\tdefault:\n\t\treturn fmt.Errorf(\"malformed bool\")\n\t}\n\treturn nil\n}\nfunc (v wbool) width() int { return 1 }\n\n// https://docs.oasis-open.org/mqtt/mqtt/v5.0/os/mqtt-v5.0-os.html#_Toc3901007\ntype bits byte\n\nfunc (v bits) Has(b byte) bool { return byte(v)&b == b }\n\nfunc (v bits) fillProp(data []byte, i int, id Ident) int {\n\tif v == 0 {\n\t\treturn 0\n\t}\n\tn := i\n\ti += id.fill(data, i)\n\ti += v.fill(data, i)\n\treturn i - n\n}\n\nfunc (v bits) fill(data []byte, i int) int {\n\tif len(data) >= i+1 {\n\t\tdata[i] = byte(v)\n\t}\n\treturn 1\n}\n\n// fillOpt fills the bits if > 0\nfunc (v bits) fillOpt(data []byte, i int) int {\n\tif v == 0 {\n\t\treturn 0\n\t}\n\treturn v.fill(data, i)\n}\n\nfunc (v *bits) ReadFrom(r io.Reader) (int64, error) {\n\tdata := make([]byte, 1)\n\tif n, err := io.ReadFull(r, data); err != nil {\n\t\treturn int64(n), err\n\t}\n\treturn 1, v.UnmarshalBinary(data)\n}\nfunc (v *bits) UnmarshalBinary(data []byte) error {\n\tif len(data) < 1 {\n\t\treturn ErrMissingData\n\t}\n\t*v = bits(data[0])\n\treturn nil\n}\nfunc (v bits) width() int { return 1 }\nfunc (v *bits) toggle(flag byte, on bool) {\n\tmask := bits(flag)\n\tx := *v &^ mask // flag cleared\n\tif on {\n\t\tx |= mask\n\t}\n\t*v = x\n}\n\n// https://docs.oasis-open.org/mqtt/mqtt/v5.0/os/mqtt-v5.0-os.html#_Toc3901008\ntype wuint16 uint16\n\nfunc (v wuint16) fillProp(data []byte, i int, id Ident) int {\n\tif v == 0 {\n\t\treturn 0\n\t}\n\tn := i\n\ti += id.fill(data, i)\n\ti += v.fill(data, i)\n\treturn i - n\n}\n\nfunc (v wuint16) fill(data []byte, i int) int {\n\tif len(data) >= i+2 {\n\t\tbinary.BigEndian.PutUint16(data[i:], uint16(v))\n\t}\n\treturn 2\n}\n\nfunc (v *wuint16) UnmarshalBinary(data []byte) error {\n\tif len(data) < 2 {\n\t\treturn ErrMissingData\n\t}\n\t*v = wuint16(binary.BigEndian.Uint16(data))\n\treturn nil\n}\n\nfunc (v wuint16) width() int { return 2 }\n\n// https://docs.oasis-open.org/mqtt/mqtt/v5.0/os/mqtt-v5.0-os.html#_Toc3901009\ntype wuint32 uint32\n\nfunc (v wuint32) fillProp(data []byte, i int, id Ident) int {\n\tif v == 0 {\n\t\treturn 0\n\t}\n\tn := i\n\ti += id.fill(data, i)\n\ti += v.fill(data, i)\n\treturn i - n\n}\n\nfunc (v wuint32) fill(data []byte, i int) int {\n\tif len(data) >= i+v.width() {\n\t\tbinary.BigEndian.PutUint32(data[i:], uint32(v))\n\t}\n\treturn v.width()\n}\n\nfunc (v *wuint32) UnmarshalBinary(data []byte) error {\n\tif len(data) < 4 {\n\t\treturn ErrMissingData\n\t}\n\t*v = wuint32(binary.BigEndian.Uint32(data))\n\treturn nil\n}\n\nfunc (v wuint32) width() int { return 4 }\n\n// only here to fulfill interface\nfunc (v Ident) fillProp(data []byte, i int, id Ident) int { return 0 }\n\n// An Ident is a single byte on the wire, same as bits.\nfunc (v Ident) fill(data []byte, i int) int {\n\treturn bits(v).fill(data, i)\n}\n\nfunc (v *Ident) UnmarshalBinary(data []byte) error {\n\treturn (*bits)(v).UnmarshalBinary(data)"}}},
 		{Name: "rf7-per-property-helper-without-default", Rule: "R9.5", Where: "(*buffer).getProp", Edits: []Edit{{"buffer.go", "\tvar propLen vbint\n\tb.get(&propLen)\n\tend := b.i + int(propLen)\n\tvar id Ident\n\tfor b.i < end {\n\t\tb.get(&id)\n\t\t// first failure stops the parsing\n\t\tif b.err != nil {\n\t\t\treturn\n\t\t}\n\t\tfield, hasField := fields[id]\n\t\tif hasField {\n\t\t\tb.get(field())\n\t\t\tcontinue\n\t\t}\n\t\tswitch id {\n\t\tcase UserProperty:\n\t\t\tvar p UserProp\n\t\t\tb.get(&p)\n\t\t\taddProp(p)\n\n\t\tcase SubscriptionID:\n\t\t\tvar sub vbint\n\t\t\tb.get(&sub)\n\t\t\tif b.addSubscriptionID != nil {\n\t\t\t\tb.addSubscriptionID(uint32(sub))\n\t\t\t}\n\n\t\tdefault:\n\t\t\tb.err = fmt.Errorf(\"unknown property id 0x%02x\", id)\n\t\t}", "\tend := b.getPropLen()\n\t// first failure stops the parsing\n\tfor b.i < end && b.err == nil {\n\t\tb.getProp(fields, addProp)\n\t}\n}\n\n// getPropLen reads the property length and returns the offset of\n// the first byte following the properties.\nfunc (b *buffer) getPropLen() int {\n\tvar propLen vbint\n\tb.get(&propLen)\n\treturn b.i + int(propLen)\n}\n\n// getProp reads one property, i.e. the identifier followed by its\n// value.\nfunc (b *buffer) getProp(fields map[Ident]func() wireType, addProp func(UserProp)) {\n\tvar id Ident\n\tb.get(&id)\n\tif b.err != nil {\n\t\treturn\n\t}\n\tif field, hasField := fields[id]; hasField {\n\t\tb.get(field())\n\t\treturn\n\t}\n\tswitch id {\n\tcase UserProperty:\n\t\tb.getUserProp(addProp)\n\tcase SubscriptionID:\n\t\tb.getSubscriptionID()\n\t}\n}\n\nfunc (b *buffer) getUserProp(addProp func(UserProp)) {\n\tvar p UserProp\n\tb.get(&p)\n\taddProp(p)\n}\n\nfunc (b *buffer) getSubscriptionID() {\n\tvar sub vbint\n\tb.get(&sub)\n\tif b.addSubscriptionID != nil {\n\t\tb.addSubscriptionID(uint32(sub))"}}},
 		{Name: "rf7-per-property-helper-reads-the-identifier", Silent: true, Edits: []Edit{{"buffer.go", "\tvar propLen vbint\n\tb.get(&propLen)\n\tend := b.i + int(propLen)\n\tvar id Ident\n\tfor b.i < end {\n\t\tb.get(&id)\n\t\t// first failure stops the parsing\n\t\tif b.err != nil {\n\t\t\treturn\n\t\t}\n\t\tfield, hasField := fields[id]\n\t\tif hasField {\n\t\t\tb.get(field())\n\t\t\tcontinue\n\t\t}\n\t\tswitch id {\n\t\tcase UserProperty:\n\t\t\tvar p UserProp\n\t\t\tb.get(&p)\n\t\t\taddProp(p)\n\n\t\tcase SubscriptionID:\n\t\t\tvar sub vbint\n\t\t\tb.get(&sub)\n\t\t\tif b.addSubscriptionID != nil {\n\t\t\t\tb.addSubscriptionID(uint32(sub))\n\t\t\t}\n\n\t\tdefault:\n\t\t\tb.err = fmt.Errorf(\"unknown property id 0x%02x\", id)\n\t\t}", "\tend := b.getPropLen()\n\t// first failure stops the parsing\n\tfor b.i < end && b.err == nil {\n\t\tb.getProp(fields, addProp)\n\t}\n}\n\n// getPropLen reads the property length and returns the offset of\n// the first byte following the properties.\nfunc (b *buffer) getPropLen() int {\n\tvar propLen vbint\n\tb.get(&propLen)\n\treturn b.i + int(propLen)\n}\n\n// getProp reads one property, i.e. the identifier followed by its\n// value.\nfunc (b *buffer) getProp(fields map[Ident]func() wireType, addProp func(UserProp)) {\n\tvar id Ident\n\tb.get(&id)\n\tif b.err != nil {\n\t\treturn\n\t}\n\tif field, hasField := fields[id]; hasField {\n\t\tb.get(field())\n\t\treturn\n\t}\n\tswitch id {\n\tcase UserProperty:\n\t\tb.getUserProp(addProp)\n\tcase SubscriptionID:\n\t\tb.getSubscriptionID()\n\tdefault:\n\t\tb.err = fmt.Errorf(\"unknown property id 0x%02x\", id)\n\t}\n}\n\nfunc (b *buffer) getUserProp(addProp func(UserProp)) {\n\tvar p UserProp\n\tb.get(&p)\n\taddProp(p)\n}\n\nfunc (b *buffer) getSubscriptionID() {\n\tvar sub vbint\n\tb.get(&sub)\n\tif b.addSubscriptionID != nil {\n\t\tb.addSubscriptionID(uint32(sub))"}}},
 		{Name: "rf7-reader-constructor-starting-at-offset-one", Rule: "R9.2", Where: "(*Auth).UnmarshalBinary", Edits: []Edit{{"auth.go", "\tb := &buffer{data: data}", "\tb := newBuffer(data)"}, {"buffer.go", "// getAny reads all properties from the current offset starting with\n// the variable length.  fields map property identity codes to wire\n// type fields and the addProp func is used for each user property.\nfunc (b *buffer) getAny(fields map[Ident]func() wireType, addProp func(UserProp)) {\n\tif b.atEnd() {\n\t\treturn\n\t}\n\tvar propLen vbint\n\tb.get(&propLen)\n\tend := b.i + int(propLen)\n\tvar id Ident\n\tfor b.i < end {\n\t\tb.get(&id)\n\t\t// first failure stops the parsing\n\t\tif b.err != nil {\n\t\t\treturn\n\t\t}\n\t\tfield, hasField := fields[id]\n\t\tif hasField {\n\t\t\tb.get(field())\n\t\t\tcontinue\n\t\t}\n\t\tswitch id {\n\t\tcase UserProperty:\n\t\t\tvar p UserProp\n\t\t\tb.get(&p)\n\t\t\taddProp(p)\n\n\t\tcase SubscriptionID:\n\t\t\tvar sub vbint\n\t\t\tb.get(&sub)\n\t\t\tif b.addSubscriptionID != nil {\n\t\t\t\tb.addSubscriptionID(uint32(sub))\n\t\t\t}\n\n\t\tdefault:\n\t\t\tb.err = fmt.Errorf(\"unknown property id 0x%02x\", id)\n\t\t}\n\t}\n}\n\nfunc (b *buffer) get(v wireType) {\n\tif b.err != nil {\n\t\treturn\n\t}\n\tif b.i >= len(b.data) {\n\t\tb.err = ErrMissingData\n\t\treturn\n\t}\n\tif b.err = v.UnmarshalBinary(b.data[b.i:]); b.err != nil {\n\t\treturn\n\t}\n\tn := v.width()\n\tif n > len(b.data)-b.i {\n\t\tb.err = ErrMissingData\n\t\treturn\n\t}\n\tb.i += n", "// newBuffer returns a buffer positioned at the start of data.\nfunc newBuffer(data []byte) *buffer {\n\treturn &buffer{data: data, i: 1}\n}\n\n// getAny reads all properties from the current offset starting with\n// the variable length.  fields map property identity codes to wire\n// type fields and the addProp func is used for each user property.\nfunc (b *buffer) getAny(fields map[Ident]func() wireType, addProp func(UserProp)) {\n\tif b.atEnd() {\n\t\treturn\n\t}\n\tvar propLen vbint\n\tb.get(&propLen)\n\tend := b.i + int(propLen)\n\tvar id Ident\n\tfor b.i < end {\n\t\tb.get(&id)\n\t\t// first failure stops the parsing\n\t\tif b.err != nil {\n\t\t\treturn\n\t\t}\n\t\tfield, hasField := fields[id]\n\t\tif hasField {\n\t\t\tb.get(field())\n\t\t\tcontinue\n\t\t}\n\t\tswitch id {\n\t\tcase UserProperty:\n\t\t\tvar p UserProp\n\t\t\tb.get(&p)\n\t\t\taddProp(p)\n\n\t\tcase SubscriptionID:\n\t\t\tvar sub vbint\n\t\t\tb.get(&sub)\n\t\t\tif b.addSubscriptionID != nil {\n\t\t\t\tb.addSubscriptionID(uint32(sub))\n\t\t\t}\n\n\t\tdefault:\n\t\t\tb.fail(fmt.Errorf(\"unknown property id 0x%02x\", id))\n\t\t}\n\t}\n}\n\nfunc (b *buffer) get(v wireType) {\n\tif b.err != nil {\n\t\treturn\n\t}\n\trest := b.rest()\n\tif len(rest) == 0 {\n\t\tb.fail(ErrMissingData)\n\t\treturn\n\t}\n\tif err := v.UnmarshalBinary(rest); err != nil {\n\t\tb.fail(err)\n\t\treturn\n\t}\n\tn := v.width()\n\tif n > len(rest) {\n\t\tb.fail(ErrMissingData)\n\t\treturn\n\t}\n\tb.i += n\n}\n\n// rest returns the data not yet read.\nfunc (b *buffer) rest() []byte {\n\treturn b.data[b.i:]\n}\n\n// fail records err unless a previous failure is already recorded,\n// i.e. the first failure is the one reported.\nfunc (b *buffer) fail(err error) {\n\tif b.err == nil {\n\t\tb.err = err\n\t}"}, {"connack.go", "\tb := &buffer{data: data}", "\tb := newBuffer(data)"}, {"connect.go", "\tbuf := &buffer{data: data}", "\tbuf := newBuffer(data)"}, {"disconnect.go", "\tb := &buffer{data: data}", "\tb := newBuffer(data)"}, {"puback.go", "\tb := &buffer{data: data}", "\tb := newBuffer(data)"}, {"pubcomp.go", "\tb := &buffer{data: data}", "\tb := newBuffer(data)"}, {"pubrec.go", "\tb := &buffer{data: data}", "\tb := newBuffer(data)"}, {"pubrel.go", "\tb := &buffer{data: data}", "\tb := newBuffer(data)"}, {"suback.go", "\tb := &buffer{data: data}", "\tb := newBuffer(data)"}, {"subscribe.go", "\tb := &buffer{data: data}", "\tb := newBuffer(data)"}, {"unsuback.go", "\tb := &buffer{data: data}", "\tb := newBuffer(data)"}, {"unsubscribe.go", "\tb := &buffer{data: data}", "\tb := newBuffer(data)"}}},
@@ -426,6 +428,38 @@ func checkWireDecoderRejects(p *Prog, c *Check, d *ssa.Function) {
 		r := ret.Results[0]
 		if isNilConst(r) {
 			nnil++
+			// behind the nil edge of another wire decoder of the library applied to the same input (`var b bits; if err :=
+			// b.UnmarshalBinary(data); err != nil { return err }`): that decoder's own R9.1 obligation covers its width
+			viaInner := false
+			for _, ib := range d.Blocks {
+				for _, ins := range ib.Instrs {
+					call, isCall := ins.(*ssa.Call)
+					if !isCall || len(call.Call.Args) != 2 || call.Call.Args[1] != ssa.Value(d.Params[di]) {
+						continue
+					}
+					t := call.Call.StaticCallee()
+					if t == nil || t == d || !p.isWireDecoder(t) || len(t.Params) != 2 {
+						continue
+					}
+					tpt, isP := t.Params[0].Type().Underlying().(*types.Pointer)
+					if !isP {
+						continue
+					}
+					tm := p.widthLower(tpt)
+					if math.IsInf(tm, 0) {
+						tm = p.widthLower(tpt.Elem())
+					}
+					if math.IsInf(tm, 0) || tm < min {
+						continue
+					}
+					if _, isNil := errEdges(call); dominatedByAny(isNil, b) {
+						viaInner = true
+					}
+				}
+			}
+			if viaInner {
+				continue
+			}
 			if !pr.Prove(b, dlen.addConst(-int64(min))) {
 				okAll = false
 				c.Bad("R9.1", cons, posOf(p, ret), fmt.Sprintf("success is returned although fewer than %d byte(s) may be present: short input is accepted", int64(min)))
